@@ -93,11 +93,15 @@ def floorMap (idx : List Nat) : List Nat :=
 def findPermutation (idx0 idx1 : List Nat) : List Nat :=
   (List.range idx1.length).map fun i => idx0.idxOf (idx1.getD i 0)
 
-/-- `permute_mapped_index_t<Index<p...>, make_index_t<r>>` (C++17 reverse map) -/
-def mappedIndex (p : List Nat) : List Nat :=
-  let argsort0 := metaArgsort p
-  let argsort1 := metaArgsort (List.range p.length)
+/-- `permute_mapped_index_t<Index<r...>, Index<o...>>` on two label packs (the explicit-output einsum passes the labels
+    of the contraction result and of the requested output) -/
+def mappedIndex2 (r o : List Nat) : List Nat :=
+  let argsort0 := metaArgsort r
+  let argsort1 := metaArgsort o
   findPermutation (floorMap argsort0) (floorMap argsort1)
+
+/-- `permute_mapped_index_t<Index<p...>, make_index_t<r>>` (C++17 reverse map of `permute`) -/
+def mappedIndex (p : List Nat) : List Nat := mappedIndex2 p (List.range p.length)
 
 /-- `products(seq, i)`: `i == N-1 ? seq[N-1] : products(seq,i+1)*seq[i]` -/
 def productsFrom (seq : List Nat) (i : Nat) : Nat := (seq.drop i).foldr (· * ·) 1
